@@ -50,6 +50,8 @@ FIXED = [
      'cat[idx] shared the _extra_properties list with its parent: child.add_extra_property made the parent advertise it'),
     ('C08', '1c5b0e2', '*centroid_quad*',
      'scalar SourceCatalog: cutout_centroid_quad fallback raised IndexError when the quadratic fit fails'),
+    ('C08', 'd8ee267', 'child-raises|SC._max_circular_kron_radius:scalar-child',
+     'scalar SourceCatalog (cat[5]) at the minimum circular Kron radius: fluxfrac_radius / centroid_win raised TypeError (item assignment on a numpy scalar)'),
     ('C09', '6dc805c', 'read-raises|Background2D.background_mesh:filter_threshold:cached=background_rms_mesh',
      'Background2D(filter_threshold=...): reading background_rms(_mesh) then background(_mesh) raised TypeError'),
     ('C09', 'ece375e', 'config-changed|PSFPhotometry.grouper',
@@ -96,6 +98,12 @@ FIXED = [
     ('C20', 'e16ee6a', 'model|pa-wraps-between-isophotes',
      'build_ellipse_model splined raw PA values that alternate between ~0 and ~pi for galaxies aligned with the x axis: 4-62 % of the '
      'fitted region wrong'),
+    ('C09', '86bc028', 'config-changed|Ellipse.geometry.*:after-*',
+     'Ellipse.fit_image kept linear/fix_* overrides after the "Everything is fixed" return and after an exception inside the fit'),
+    ('C15', '78c6ffb', 'repr-differs|*:*i1*',
+     'error**2 computed in the integer dtype of the error array: aperture_sum_err / sum_err / segment_fluxerr / profile_error / calc_total_error wrong or NaN for uint8/int8/int16 errors'),
+    ('C15', 'be13084', 'repr-differs|deblend_sources:*u*',
+     'deblend_sources negated unsigned images (wrap-around): different segmentation for uint64 than for float64'),
     ('C10', '7feda3d', 'input-mutated|centroid_?dg:data', 'centroid_1dg/2dg modified mask and fill_value of a MaskedArray input'),
     ('C10', 'f9b16e8', 'input-mutated|grid_from_epsfs:meta', "grid_from_epsfs added keys to the caller's meta dict"),
     ('C10', '7313ebf', 'input-mutated|RadialProfile:mask', "profiles did mask |= badmask on the caller's mask"),
